@@ -882,12 +882,13 @@ def specHdr (flags : Nat) (h : Hdr) (n : Nat) : Hdr :=
   if fl flags SAMPLE_FLAG_FULLREP ∧ h1.lps = 0 ∧ h1.len > h1.lpe
   then { h1 with flg := setf h1.flg XMP_SAMPLE_LOOP_FULL } else h1
 
-theorem loadCoreS_closed (flags : Nat) (h : Hdr) (is16 stereo : Bool) (n : Nat) (f : Bytes) (limit : Nat)
+theorem loadCoreS_closed (flags : Nat) (h : Hdr) (is16 stereo : Bool) (n : Nat) (tr : Bool) (f : Bytes) (limit : Nat)
     (buffer raw : Bytes) (consumed : Nat)
     (hread : readDestS flags (n * frameLen is16 stereo) f limit buffer = some (raw, consumed))
     (hraw : raw.length = n * frameLen is16 stereo) :
-    loadCoreS flags h is16 stereo (n * frameLen is16 stereo) (n : Int) f limit buffer =
-      .ok (specHdr flags h n) (Spec.withGuards (frameLen is16 stereo) (Spec.pcm flags is16 stereo n raw)) consumed := by
+    loadCoreS flags h is16 stereo (n * frameLen is16 stereo) (n : Int) tr f limit buffer =
+      .ok (specHdr flags h n) (Spec.withGuards (frameLen is16 stereo) (Spec.pcm flags is16 stereo n raw))
+        (if tr then f.length else consumed) := by
   unfold loadCoreS
   simp only [hread, loopSanity_closed, loop_len, Int.toNat_natCast]
   have hc := convert_closed flags is16 stereo n raw hraw
@@ -901,9 +902,9 @@ theorem loadCoreS_closed (flags : Nat) (h : Hdr) (is16 stereo : Bool) (n : Nat) 
   · simp only [hf, if_false, false_and]
     simp
 
-theorem loadCoreS_error (flags : Nat) (h : Hdr) (is16 stereo : Bool) (b : Nat) (len : Int) (f : Bytes) (limit : Nat)
-    (buffer : Bytes) (hread : readDestS flags b f limit buffer = none) :
-    loadCoreS flags h is16 stereo b len f limit buffer = .error := by
+theorem loadCoreS_error (flags : Nat) (h : Hdr) (is16 stereo : Bool) (b : Nat) (len : Int) (tr : Bool) (f : Bytes)
+    (limit : Nat) (buffer : Bytes) (hread : readDestS flags b f limit buffer = none) :
+    loadCoreS flags h is16 stereo b len tr f limit buffer = .error := by
   unfold loadCoreS
   simp only [hread]
 
@@ -912,7 +913,7 @@ theorem loadCore_closed (flags : Nat) (h : Hdr) (is16 stereo : Bool) (n : Nat) (
     (hraw : raw.length = n * frameLen is16 stereo) :
     loadCore flags h is16 stereo (n * frameLen is16 stereo) (n : Int) f buffer =
       .ok (specHdr flags h n) (Spec.withGuards (frameLen is16 stereo) (Spec.pcm flags is16 stereo n raw)) consumed :=
-  loadCoreS_closed flags h is16 stereo n f f.length buffer raw consumed hread hraw
+  loadCoreS_closed flags h is16 stereo n false f f.length buffer raw consumed hread hraw
 
 /-! ### the read -/
 
@@ -1018,6 +1019,26 @@ theorem readDest_plain (flags b : Nat) (f buffer : Bytes) (h : fl flags SAMPLE_F
 
 /-! ### whole function -/
 
+/-- the C's `truncated` flag in closed form: fewer whole frames are present than declared -/
+theorem truncOver_closed (flags : Nat) (is16 stereo : Bool) (n rem : Nat)
+    (h16 : fl flags SAMPLE_FLAG_ADPCM = true → 16 ≤ rem) :
+    truncOver flags (n * frameLen is16 stereo) rem =
+      decide (Spec.effBytes (fl flags SAMPLE_FLAG_ADPCM) (frameLen is16 stereo) (n * frameLen is16 stereo) rem
+              < n * frameLen is16 stereo) := by
+  have hfl := frameLen_mem is16 stereo
+  unfold truncOver Spec.effBytes
+  generalize frameLen is16 stereo = k at *
+  cases ha : fl flags SAMPLE_FLAG_ADPCM
+  · simp only [Bool.false_eq_true, if_false]
+    congr 1
+    apply propext
+    rcases hfl with h1 | h1 | h1 <;> subst h1 <;> omega
+  · have := h16 ha
+    simp only [if_true, shr1]
+    congr 1
+    apply propext
+    rcases hfl with h1 | h1 | h1 <;> subst h1 <;> omega
+
 /-- caller's obligation for `SAMPLE_FLAG_NOLOAD`: the buffer holds the declared sample -/
 def BufferOk (flags : Nat) (h : Hdr) (buffer : Bytes) : Prop :=
   fl flags SAMPLE_FLAG_NOLOAD = true →
@@ -1060,8 +1081,8 @@ theorem loadS_closed (flags : Nat) (h : Hdr) (skip : Bool) (f : Option Bytes) (l
   · simp only [hN, if_true, Bool.not_true, Bool.false_eq_true, false_and, if_false, true_or]
     have hb := hbuf hN
     simp only [Int.toNat_natCast, hi, hs] at hb
-    rw [loadCoreS_closed flags _ is16 stereo n _ _ buffer _ 0 (readDestS_noload _ _ _ _ _ hN) (by simp; omega)]
-    simp only [Nat.mul_div_cancel _ hflpos, specHdr]
+    rw [loadCoreS_closed flags _ is16 stereo n _ _ _ buffer _ 0 (readDestS_noload _ _ _ _ _ hN) (by simp; omega)]
+    simp only [Nat.mul_div_cancel _ hflpos, specHdr, Bool.false_and, Bool.false_eq_true, if_false]
   · have hN' : fl flags SAMPLE_FLAG_NOLOAD = false := by simpa using hN
     simp only [hN', Bool.false_eq_true, if_false, Bool.not_false, true_and, false_or]
     cases f with
@@ -1075,6 +1096,7 @@ theorem loadS_closed (flags : Nat) (h : Hdr) (skip : Bool) (f : Option Bytes) (l
       · by_cases h16 : av.length < 16
         · simp [ha, h16]
         · have hcond : ¬ (av.length = 0 ∨ fl flags SAMPLE_FLAG_ADPCM = true ∧ av.length < 16) := by omega
+          rw [truncOver_closed flags is16 stereo n av.length (by intro _; omega)]
           simp only [hcond, if_false, ha, true_and, h16, or_false, hz]
           generalize hb : Spec.effBytes true (frameLen is16 stereo) (n * frameLen is16 stereo) av.length = b
           have hle := effBytes_le true (frameLen is16 stereo) (n * frameLen is16 stereo) av.length
@@ -1084,14 +1106,15 @@ theorem loadS_closed (flags : Nat) (h : Hdr) (skip : Bool) (f : Option Bytes) (l
           obtain ⟨k, rfl⟩ : ∃ k, b = k * frameLen is16 stereo := ⟨_, hmul.symm⟩
           rw [Nat.mul_div_cancel _ hflpos]
           by_cases hlim : limit < 16 + (k * frameLen is16 stereo + 1) / 2
-          · rw [loadCoreS_error _ _ _ _ _ _ _ _ _ (readDestS_adpcm_short _ _ _ _ _ hN' ha hlim)]
+          · rw [loadCoreS_error _ _ _ _ _ _ _ _ _ _ (readDestS_adpcm_short _ _ _ _ _ hN' ha hlim)]
             simp only [hlim, if_true]
-          · rw [loadCoreS_closed flags _ is16 stereo k av limit buffer _ _
+          · rw [loadCoreS_closed flags _ is16 stereo k _ av limit buffer _ _
               (readDestS_adpcm _ _ _ _ _ hN' ha (by omega) (by omega) (by omega)) (by simp [Spec.adpcm])]
-            simp only [specHdr, if_true, hlim, if_false]
+            simp only [specHdr, if_true, hlim, if_false, Bool.true_and, decide_eq_true_eq]
       · have ha' : fl flags SAMPLE_FLAG_ADPCM = false := by simpa using ha
         have hcond : ¬ (av.length = 0 ∨ fl flags SAMPLE_FLAG_ADPCM = true ∧ av.length < 16) := by
           simp [ha', hz]
+        rw [truncOver_closed flags is16 stereo n av.length (by intro h; rw [ha'] at h; exact absurd h (by simp))]
         simp only [hcond, if_false, ha', Bool.false_eq_true, false_and, or_false, hz]
         generalize hb : Spec.effBytes false (frameLen is16 stereo) (n * frameLen is16 stereo) av.length = b
         have hle := effBytes_le false (frameLen is16 stereo) (n * frameLen is16 stereo) av.length
@@ -1100,9 +1123,9 @@ theorem loadS_closed (flags : Nat) (h : Hdr) (skip : Bool) (f : Option Bytes) (l
         simp only [Bool.false_eq_true, if_false] at hle
         obtain ⟨k, rfl⟩ : ∃ k, b = k * frameLen is16 stereo := ⟨_, hmul.symm⟩
         rw [Nat.mul_div_cancel _ hflpos]
-        rw [loadCoreS_closed flags _ is16 stereo k av limit buffer _ _
+        rw [loadCoreS_closed flags _ is16 stereo k _ av limit buffer _ _
           (readDestS_plain _ _ _ _ _ hN' ha' hle) (by simp [Spec.shortRaw])]
-        simp only [specHdr, if_false, Bool.false_eq_true]
+        simp only [specHdr, if_false, Bool.false_eq_true, Bool.true_and, decide_eq_true_eq]
 
 /-- when every promised byte is delivered the general closed form is the plain one -/
 theorem spec_loadS_full (flags : Nat) (h : Hdr) (skip : Bool) (f : Option Bytes) (limit : Nat) (buffer : Bytes)
@@ -1299,11 +1322,23 @@ def srcRaw (flags : Nat) (h : Hdr) (f : Option Bytes) (buffer : Bytes) : Bytes :
   else if fl flags SAMPLE_FLAG_ADPCM then Spec.adpcm (outBytes flags h f) ((f.getD []).take 16) ((f.getD []).drop 16)
   else (f.getD []).take (outBytes flags h f)
 
-/-- bytes taken from the stream -/
+/-- bytes the decoder reads for the loaded sample (ADPCM: table and packed nibbles) -/
+def neededBytes (flags : Nat) (h : Hdr) (f : Option Bytes) : Nat :=
+  if fl flags SAMPLE_FLAG_ADPCM then 16 + (outBytes flags h f + 1) / 2 else outBytes flags h f
+
+/-- the sample is cut short by the end of the stream -/
+def isTruncated (flags : Nat) (h : Hdr) (f : Option Bytes) : Prop :=
+  outBytes flags h f < h.len.toNat * frameLenOf h
+
+instance (flags : Nat) (h : Hdr) (f : Option Bytes) : Decidable (isTruncated flags h f) := by
+  unfold isTruncated; infer_instance
+
+/-- bytes taken from the stream: what the decoder reads, or - for a sample cut short by the end of the
+    stream - everything up to that end (the stream position afterwards is `hio_size`) -/
 def consumedBytes (flags : Nat) (h : Hdr) (f : Option Bytes) : Nat :=
   if fl flags SAMPLE_FLAG_NOLOAD then 0
-  else if fl flags SAMPLE_FLAG_ADPCM then 16 + (outBytes flags h f + 1) / 2
-  else outBytes flags h f
+  else if isTruncated flags h f then avail f
+  else neededBytes flags h f
 
 theorem spec_load_ok (flags : Nat) (h : Hdr) (skip : Bool) (f : Option Bytes) (buffer : Bytes)
     (hs : ¬ Skips flags h skip f) :
@@ -1319,7 +1354,7 @@ theorem spec_load_ok (flags : Nat) (h : Hdr) (skip : Bool) (f : Option Bytes) (b
   have c2 : ¬ (h.len > (MAX_SAMPLE_SIZE : Int) ∨ skip = true) := by simp [h3, h4]
   rw [if_neg c1, if_neg c2]
   by_cases hN : fl flags SAMPLE_FLAG_NOLOAD = true
-  · simp [hN, specHdr, outLen, outBytes, srcRaw, consumedBytes, frameLenOf, is16Of, stereoOf]
+  · simp [hN, specHdr, outLen, outBytes, srcRaw, consumedBytes, isTruncated, neededBytes, frameLenOf, is16Of, stereoOf]
   · have hN' : fl flags SAMPLE_FLAG_NOLOAD = false := by simpa using hN
     have := h5 hN'
     obtain ⟨g1, g2, g3⟩ := this
@@ -1328,7 +1363,7 @@ theorem spec_load_ok (flags : Nat) (h : Hdr) (skip : Bool) (f : Option Bytes) (b
       simp only [avail] at g2 g3
       simp [hN', g1, g2]; intro ha; have := g3 ha; omega
     rw [if_neg c3]
-    simp [hN', specHdr, outLen, outBytes, srcRaw, consumedBytes, frameLenOf, is16Of, stereoOf, avail]
+    simp [hN', specHdr, outLen, outBytes, srcRaw, consumedBytes, isTruncated, neededBytes, frameLenOf, is16Of, stereoOf, avail]
 
 theorem spec_load_skips (flags : Nat) (h : Hdr) (skip : Bool) (f : Option Bytes) (buffer : Bytes)
     (hs : Skips flags h skip f) : ∃ c, Spec.load flags h skip f buffer = .skipped h c := by
@@ -1364,7 +1399,7 @@ theorem spec_loadS_plain (flags : Nat) (h : Hdr) (skip : Bool) (f : Option Bytes
       .ok (specHdr flags h (outLen flags h f))
           (Spec.withGuards (frameLenOf h) (Spec.pcm flags (is16Of h) (stereoOf h) (outLen flags h f)
             (Spec.shortRaw (f.getD []) (outBytes flags h f) (min (outBytes flags h f) limit))))
-          (min (outBytes flags h f) limit) := by
+          (if isTruncated flags h f then avail f else min (outBytes flags h f) limit) := by
   unfold Skips at hs
   simp only [not_or, not_and] at hs
   obtain ⟨h1, h2, h3, h4, h5⟩ := hs
@@ -1378,14 +1413,14 @@ theorem spec_loadS_plain (flags : Nat) (h : Hdr) (skip : Bool) (f : Option Bytes
     simp only [avail] at g2
     simp [hN, hA, g1, g2]
   rw [if_neg c3]
-  simp [hN, hA, specHdr, outLen, outBytes, frameLenOf, is16Of, stereoOf, avail]
+  simp [hN, hA, specHdr, outLen, outBytes, isTruncated, neededBytes, frameLenOf, is16Of, stereoOf, avail]
 
 /-- shape of the general closed form for an ADPCM stream sample: all or nothing -/
 theorem spec_loadS_adpcm (flags : Nat) (h : Hdr) (skip : Bool) (f : Option Bytes) (limit : Nat) (buffer : Bytes)
     (hN : fl flags SAMPLE_FLAG_NOLOAD = false) (hA : fl flags SAMPLE_FLAG_ADPCM = true)
     (hs : ¬ Skips flags h skip f) :
     Spec.loadS flags h skip f limit buffer =
-      if limit < consumedBytes flags h f then .error else Spec.load flags h skip f buffer := by
+      if limit < neededBytes flags h f then .error else Spec.load flags h skip f buffer := by
   rw [spec_load_ok flags h skip f buffer hs]
   unfold Skips at hs
   simp only [not_or, not_and] at hs
@@ -1400,7 +1435,7 @@ theorem spec_loadS_adpcm (flags : Nat) (h : Hdr) (skip : Bool) (f : Option Bytes
     simp only [avail] at g2 g3
     simp [hN, g1, g2]; intro ha; have := g3 ha; omega
   rw [if_neg c3]
-  simp only [hN, hA, consumedBytes, outBytes, frameLenOf, is16Of, stereoOf, avail, Bool.false_eq_true, if_false, if_true,
+  simp only [hN, hA, consumedBytes, isTruncated, neededBytes, outBytes, frameLenOf, is16Of, stereoOf, avail, Bool.false_eq_true, if_false, if_true,
     Bool.not_false, true_and]
   split
   · rfl
